@@ -16,7 +16,7 @@ from ..core import canon
 
 PROP = "C11"
 NAME = "c11_hdf"
-RUNS = {"quick": 6000, "thorough": 300000}
+RUNS = {"quick": 6000, "thorough": 200000}
 TIMEOUT = 120
 CHUNK = 100
 RULE = (
